@@ -1,6 +1,7 @@
 import ParryModel.Proto
 import ParryModel.C06.Model
 import ParryModel.C06.Cull
+import ParryModel.C06.DriverW
 /-!
 C06 protocol handlers: model evaluation at `Float` (bit-exact against the harness) and exact-`Rat` oracles that
 re-judge the implementation's output against the property, independently of the model functions.
@@ -922,6 +923,6 @@ def handler (fn : String) : Option Handler :=
           let sz := 1 + g1.size + g2.size + normAbs (e2 (q2 p1.t)) + normAbs (e2 (q2 p2.t)) + q o.target
           nlOracle sz (normAbs (e2 ((q2 v2).sub (q2 v1)))) (ropts o) out
         | none => "skip bad-args" }
-  | _ => none
+  | _ => handlerW fn
 
 end C06
